@@ -802,6 +802,23 @@ func (c *EvalCtx) evalCall(e *SExpr) (SV, error) {
 			return SV{}, fmt.Errorf("as: %s is not a pointer-like type", e.Args[1])
 		}
 		return SV{V: TV{v}, T: ty}, nil
+	case "samearray":
+		// samearray(s, t): slices s and t share their backing array
+		if len(e.Args) != 2 {
+			return SV{}, fmt.Errorf("samearray takes two arguments")
+		}
+		s, _, err := c.evalTerm(e.Args[0])
+		if err != nil {
+			return SV{}, err
+		}
+		t, _, err := c.evalTerm(e.Args[1])
+		if err != nil {
+			return SV{}, err
+		}
+		if s.Sort.Name != "Slice" || t.Sort.Name != "Slice" {
+			return SV{}, fmt.Errorf("samearray wants slices")
+		}
+		return SV{V: TV{ts.Eq(ts.SelectField(ex.tm.slice, 0, s), ts.SelectField(ex.tm.slice, 0, t))}, T: boolT}, nil
 	case "suffixof":
 		// suffixof(s, t, k): slice s is t[k:] (same backing array)
 		if len(e.Args) != 3 {
